@@ -172,6 +172,9 @@ func (s *Sched) isSchedPoint(site string, accs []Acc) bool {
 	}
 	sched := s.cfg.HotSites[site]
 	for _, a := range accs {
+		if a.Elem != 0 {
+			continue // element accesses never decide scheduling points (only HotSites do)
+		}
 		typ := "global"
 		if a.Base != nil {
 			typ = reflect.TypeOf(a.Base).String()
@@ -211,7 +214,22 @@ func (s *Sched) record(t *thread, site string, accs []Acc, sched bool) {
 	for _, a := range accs {
 		var k accKey
 		typ := "global"
-		if a.Base == nil {
+		if a.Elem != 0 {
+			// elements of a slice / map: always fully recorded, keyed by the backing array or map
+			// header, so that an access through a local alias meets the accesses of the owner
+			v := reflect.ValueOf(a.Base)
+			if (v.Kind() != reflect.Slice && v.Kind() != reflect.Map) || v.IsNil() {
+				continue
+			}
+			if v.Kind() == reflect.Slice && v.Cap() == 0 {
+				continue
+			}
+			if a.Elem == 'a' {
+				a.Write = v.Len() < v.Cap() // append writes into the old array only if it has room
+			}
+			k = accKey{v.Pointer(), "[]"}
+			typ = "elements of " + v.Type().String()
+		} else if a.Base == nil {
 			k = accKey{0, a.Field}
 		} else {
 			v := reflect.ValueOf(a.Base)
@@ -252,6 +270,9 @@ func (s *Sched) record(t *thread, site string, accs []Acc, sched bool) {
 			s.Races = append(s.Races, Race{Key: h.typ + "." + a.Field, SiteA: o.site, SiteB: site, TidA: o.tid, TidB: t.id, WriteA: ow, WriteB: a.Write})
 		}
 		cross := func(o epoch) {
+			if a.Elem != 0 {
+				return // arrays recycled through pools would turn every builder site hot
+			}
 			if !o.sched {
 				s.NewHot[o.site] = true
 			}
